@@ -4,8 +4,9 @@
 (* another site: @removeslash, @addslash, the static directory redirect,   *)
 (* and @authenticated (only to the configured login URL).                  *)
 (*                                                                         *)
-(* A request is a raw path (WebChars units, begins with "/"), an optional  *)
-(* query and a method.  The expectation is a record                        *)
+(* A request is a raw target path (WebChars units; origin-form "/...",    *)
+(* absolute-form "http://host/...", "*" or authority-form - request.path  *)
+(* holds whatever precedes "?"), an optional query and a method.  The expectation is a record                        *)
 (*   [mode, st, loc]                                                       *)
 (*   mode "exact":  the response has status st and Location loc            *)
 (*   mode "noredirect": the response is not a redirect (the handler runs,  *)
@@ -20,8 +21,9 @@
 (***************************************************************************)
 EXTENDS WebChars
 
-CONSTANTS Kinds,      \* subset of {"removeslash","addslash","static1","static2","auth_rel","auth_query","auth_abs"}
+CONSTANTS Kinds,      \* subset of {"removeslash","addslash","static1","static2","static3","auth_rel","auth_query","auth_abs"}
           Methods,
+          Forms,                \* generator: target forms, subset of {"origin", "absolute", "asterisk", "authority"}
           SegToks, PathLen,     \* generator: segment tokens, max segments
           Queries,              \* generator: query token names
           MaxReq
@@ -70,7 +72,7 @@ Expect(c, m, raw, hasq, q) ==
             THEN Derived(301, RStrip(p, SLASH) \o QAppend(hasq, q)) ELSE NoRedirect
       [] c.kind = "addslash" ->
             IF ~EndsWith(p, <<SLASH>>) THEN Derived(301, p \o <<SLASH>> \o QAppend(hasq, q)) ELSE NoRedirect
-      [] c.kind \in {"static1", "static2"} ->       \* locsafe: TLC's verdict on loc, so that the replayer can compare
+      [] c.kind \in {"static1", "static2", "static3"} ->       \* locsafe: TLC's verdict on loc, so that the replayer can compare
             [mode |-> "ifredirect", st |-> 301, loc |-> p \o <<SLASH>>, locsafe |-> Safe(p \o <<SLASH>>)]
       [] c.kind \in {"auth_rel", "auth_query"} ->
             Exact(302, IF c.kind = "auth_query" THEN Login(c.kind)
@@ -92,11 +94,17 @@ STok ==
     "a" :> <<97>> @@ "empty" :> <<>> @@ "evil" :> <<101, 118, 105, 108, 46, 99, 111, 109>>
     @@ "bs" :> <<BSLASH>> @@ "bsevil" :> <<BSLASH, 101, 118, 105, 108, 46, 99, 111, 109>>
     @@ "pslash" :> <<256 + SLASH>> @@ "pbs" :> <<256 + BSLASH>> @@ "sub" :> <<115, 117, 98>> @@ "d" :> <<100>>
-    @@ "dotdot" :> <<DOT, DOT>> @@ "dot" :> <<DOT>> @@ "at" :> <<64, 101, 118, 105, 108, 46, 99, 111, 109>>
+    @@ "dotdot" :> <<DOT, DOT>> @@ "pdotdot" :> <<256 + DOT, 256 + DOT>> @@ "dot" :> <<DOT>> @@ "at" :> <<64, 101, 118, 105, 108, 46, 99, 111, 109>>
     @@ "scheme" :> <<104, 116, 116, 112, 58>> @@ "sp" :> <<256 + 32>> @@ "amp" :> <<97, 38, 98, 61, 99>>
 QTok == "noq" :> <<>> @@ "emptyq" :> <<>> @@ "q1" :> <<120, 61, 49>> @@ "qevil" :> <<47, 47, 101, 118, 105, 108, 46, 99, 111, 109>>
         @@ "qsp" :> <<97, 61, 98, 43, 99, 38, 100, 61, 37, 50, 48>>
-PathOf(toks) == <<SLASH>> \o Join([i \in 1..Len(toks) |-> STok[toks[i]]], SLASH)
+Txt_evil == <<101, 118, 105, 108, 46, 101, 120, 97, 109, 112, 108, 101>>        \* evil.example
+PathOf(form, toks) ==
+    LET rest == <<SLASH>> \o Join([i \in 1..Len(toks) |-> STok[toks[i]]], SLASH) IN
+    CASE form = "origin" -> rest
+      [] form = "absolute" -> Txt_http \o Txt_evil \o rest               \* http://evil.example/...
+      [] form = "asterisk" -> <<42>>                                     \* *
+      [] form = "authority" -> Txt_evil \o <<58, 56, 48>>                 \* evil.example:80
 
 Proj == step.exp
 InitWith(c) ==
@@ -107,15 +115,16 @@ InitState == \E k \in Kinds : InitWith([kind |-> k])
 
 Request(m, raw, hasq, q) ==
     /\ n < MaxReq
-    /\ Len(raw) >= 1 /\ raw[1] = SLASH
+    /\ Len(raw) >= 1
     /\ n' = n + 1
     /\ UNCHANGED cfg
     /\ step' = [act |-> "request", args |-> <<m, raw, hasq, q>>, exp |-> Expect(cfg, m, raw, hasq, q)]
 
 Next == /\ n < MaxReq
-        /\ \E m \in Methods, toks \in BoundedSeq(SegToks, PathLen),
-              qn \in (IF cfg.kind \in {"static1", "static2"} THEN {"noq"} ELSE Queries) :
-              Request(m, PathOf(toks), qn # "noq", QTok[qn])
+        /\ \E m \in Methods, form \in Forms :
+           \E toks \in (IF form \in {"asterisk", "authority"} THEN {<<>>} ELSE BoundedSeq(SegToks, PathLen)),
+              qn \in (IF cfg.kind \in {"static1", "static2", "static3"} THEN {"noq"} ELSE Queries) :
+              Request(m, PathOf(form, toks), qn # "noq", QTok[qn])
 
 Spec == InitState /\ [][Next]_<<vars, step>>
 
